@@ -183,6 +183,9 @@ theorem facts_verify_shape :
     ∧ Hub.Facts.Jobs.raffleAccessorsCopy = ["getRunningJobs:copy", "runningJob:locked"]
     ∧ Hub.Facts.Jobs.borrowLockedFirst = "yes"
     ∧ Hub.Facts.Jobs.borrowGuards = ["ok", "r.ticketsFull > 0", "r.ticketsIncr > 0"]
+    -- a kill only cancels the run's context; the ticket goes back once, from the run's own deferred call, and from nowhere else
+    ∧ Hub.Facts.Jobs.skeleton_killJob = ["runner.raffle.runningJob", "if running != nil {", "running.cancel", "}"]
+    ∧ Hub.Facts.Jobs.ticketReturners = ["job.Run"]
     -- the bisection of the error-handling sink wrapper terminates: batches of length ≤ 1 are leaves
     ∧ Hub.Facts.ErrHandler.leafCond = ["len(entities) <= 1"] := by decide
 
